@@ -1,7 +1,9 @@
 (** Lemmas about the S3 model, part B: the request programs of write_new_version /
-    write_new_object under the single-fault oracle. *)
-From Rocfl Require Import Base.Bytes Generated.Consts Model.S3 Model.KnownS3 Proofs.BytesFacts Proofs.S3Facts.
-From Coq Require Import ZArith Lia ZifyBool ZifyN ZifyNat.
+    write_new_object under the single-fault oracle (one mutating request of the commit fails
+    without effect; a second failure, e.g. of a request that puts something back, is outside
+    the failure model of C16). *)
+From Rocfl Require Import Base.Bytes Generated.Consts Model.S3 Proofs.BytesFacts Proofs.S3Facts.
+From Coq Require Import ZArith Lia ZifyBool ZifyN ZifyNat Permutation.
 Open Scope N_scope.
 
 (* ------------------------------------------------------------------ buckets *)
@@ -250,18 +252,104 @@ Proof.
     rewrite starts_with_app_same. reflexivity.
 Qed.
 
-(* ------------------------------------------------------------------ fault cleanup *)
+(* ------------------------------------------------------------------ the upload order (commit 4953bf6) *)
+
+Lemma upload_rank_cases rel : upload_rank rel = 0 \/ upload_rank rel = 1 \/ upload_rank rel = 2.
+Proof. unfold upload_rank. destruct (bytes_eqb _ _); [auto|]. destruct (starts_with _ _); auto. Qed.
+
+(** the sort loses and invents nothing *)
+Lemma upload_order_perm files : Permutation (upload_order files) files.
+Proof.
+  unfold upload_order. induction files as [|f fs IH]; [constructor|].
+  cbn [filter].
+  destruct (upload_rank_cases (uf_rel f)) as [E | [E | E]].
+  - assert (rank_is 0 f = true /\ rank_is 1 f = false /\ rank_is 2 f = false) as (R0 & R1 & R2)
+      by (unfold rank_is; rewrite E; repeat split; reflexivity).
+    rewrite R0, R1, R2. cbn [app]. apply perm_skip. exact IH.
+  - assert (rank_is 0 f = false /\ rank_is 1 f = true /\ rank_is 2 f = false) as (R0 & R1 & R2)
+      by (unfold rank_is; rewrite E; repeat split; reflexivity).
+    rewrite R0, R1, R2. cbn [app]. symmetry. apply Permutation_cons_app. symmetry. exact IH.
+  - assert (rank_is 0 f = false /\ rank_is 1 f = false /\ rank_is 2 f = true) as (R0 & R1 & R2)
+      by (unfold rank_is; rewrite E; repeat split; reflexivity).
+    rewrite R0, R1, R2. rewrite app_assoc. symmetry. apply Permutation_cons_app. rewrite <- app_assoc. symmetry. exact IH.
+Qed.
+
+Lemma upload_order_forall (P : ufile -> Prop) files : Forall P files -> Forall P (upload_order files).
+Proof.
+  rewrite !Forall_forall. intros H f Hf. apply H. eapply Permutation_in; [apply upload_order_perm|exact Hf].
+Qed.
+
+Lemma upload_cost_perm l l' : Permutation l l' -> upload_cost l = upload_cost l'.
+Proof.
+  unfold upload_cost. induction 1; cbn [fold_right]; lia.
+Qed.
+
+Lemma upload_order_cost files : upload_cost (upload_order files) = upload_cost files.
+Proof. apply upload_cost_perm, upload_order_perm. Qed.
+
+Lemma rank_is_inv n f : rank_is n f = true -> upload_rank (uf_rel f) = n.
+Proof. unfold rank_is. intros H. now apply N.eqb_eq in H. Qed.
+
+Lemma rank_1_name f : rank_is 1 f = true -> uf_rel f = K_INVENTORY_FILE.
+Proof.
+  intros H. apply rank_is_inv in H. unfold upload_rank in H.
+  destruct (bytes_eqb (uf_rel f) K_INVENTORY_FILE) eqn:E; [now apply bytes_eqb_eq in E|].
+  destruct (starts_with _ _); discriminate.
+Qed.
+
+Lemma rank_2_name f : rank_is 2 f = true ->
+  starts_with K_INVENTORY_SIDECAR_PREFIX (uf_rel f) = true /\ uf_rel f <> K_INVENTORY_FILE.
+Proof.
+  intros H. apply rank_is_inv in H. unfold upload_rank in H.
+  destruct (bytes_eqb (uf_rel f) K_INVENTORY_FILE) eqn:E; [discriminate|].
+  apply bytes_eqb_false in E. destruct (starts_with _ _); [auto|discriminate].
+Qed.
+
+Lemma rank_0_name f : rank_is 0 f = true ->
+  uf_rel f <> K_INVENTORY_FILE /\ starts_with K_INVENTORY_SIDECAR_PREFIX (uf_rel f) = false.
+Proof.
+  intros H. apply rank_is_inv in H. unfold upload_rank in H.
+  destruct (bytes_eqb (uf_rel f) K_INVENTORY_FILE) eqn:E; [discriminate|].
+  apply bytes_eqb_false in E. destruct (starts_with _ _); [discriminate|auto].
+Qed.
+
+(* ------------------------------------------------------------------ well-formed commits *)
+
+(** a declaration file name: a plain name "0=ocfl_object_<something>" *)
+Definition decl_name_ok (name : bytes) : bool :=
+  nameb name && starts_with K_OBJECT_NAMASTE_FILE_PREFIX name &&
+  Nat.ltb (List.length K_OBJECT_NAMASTE_FILE_PREFIX) (List.length name).
 
 Record nv_wf (cp : bytes) (i : nv_input) : Prop := mkNvWf {
   wf_cp : pfx_ok cp = true;
   wf_root : relb (nv_root i) = true;
+  wf_root_boundary : head_is_boundary (nv_root i) = true;      (* object roots are Rust Strings *)
   wf_vstr : relb (nv_vstr i) = true;
-  wf_files : Forall (fun f => relb (uf_rel f) = true) (nv_files i)
+  wf_files : Forall (fun f => relb (uf_rel f) = true) (nv_files i);
+  wf_sidecar : nv_old_sidecar i = uf_rel (nv_sidecar i);       (* the digest algorithm of an object never changes *)
+  wf_decl : forall name content, nv_upgrade i = Some (name, content) -> decl_name_ok name = true
 }.
 
 Definition vdst_of (i : nv_input) : bytes := join (nv_root i) (nv_vstr i).
 Definition clear_under (cp dst : bytes) (bk : bucket) : Prop :=
   forall k, In k (bk_keys bk) -> starts_with (request_prefix cp dst) k = false.
+Definition inv_key (cp : bytes) (i : nv_input) : bytes := join cp (join (nv_root i) K_INVENTORY_FILE).
+Definition sc_key (cp : bytes) (i : nv_input) : bytes := join cp (join (nv_root i) (uf_rel (nv_sidecar i))).
+
+(** the state a version commit starts from: nothing below <root>/vN/, and the object is there
+    (write_new_version has just parsed its root inventory, s3.rs:557) with its sidecar *)
+Record nv_ready (cp : bytes) (i : nv_input) (bk : bucket) : Prop := mkNvReady {
+  rd_clear : clear_under cp (vdst_of i) bk;
+  rd_inv : bk_get (inv_key cp i) bk <> None;
+  rd_sc : bk_get (sc_key cp i) bk <> None
+}.
+
+Lemma rollback_n_mono fa cp : forall done s, st_n s <= st_n (rollback fa cp done s).
+Proof.
+  induction done as [|p r IH]; intros s; cbn [rollback]; [lia|].
+  specialize (IH (snd (delete_object fa cp p s))). unfold delete_object in IH. rewrite mreq_n in IH.
+  unfold delete_object. lia.
+Qed.
 
 Lemma agrees_refl cp b0 : agrees cp b0 [] b0.
 Proof. intros x _. reflexivity. Qed.
@@ -273,370 +361,20 @@ Lemma upload_all_spec fa cp dst files b0 :
   (exists uploaded, fst out = Ok uploaded /\ agrees cp b0 uploaded (st_b (snd out)) /\
      (forall p, In p uploaded -> bk_get (join cp p) b0 = None) /\
      st_n (snd out) = upload_cost files /\ miss fa 0 (upload_cost files)) \/
-  (fst out = Err /\ forall x, bk_get x (st_b (snd out)) = bk_get x b0).
+  (fst out = Err /\ (forall x, bk_get x (st_b (snd out)) = bk_get x b0) /\
+   hit fa 0 (st_n (snd out))).
 Proof.
   intros Hc Hd Hf Hclear. cbn zeta. unfold upload_all, do_with_rollback.
-  pose proof (upload_loop_spec fa cp dst b0 files [] (init_st b0) (agrees_refl cp b0)) as H.
-  cbn zeta in H. destruct (upload_loop fa cp dst files [] (init_st b0)) as [[r done'] s1].
+  apply upload_order_forall in Hf. rewrite <- (upload_order_cost files).
+  pose proof (upload_loop_spec fa cp dst b0 (upload_order files) [] (init_st b0) (agrees_refl cp b0)) as H.
+  cbn zeta in H. destruct (upload_loop fa cp dst (upload_order files) [] (init_st b0)) as [[r done'] s1].
   cbn [fst snd] in H. destruct H as (Hag & Hall & Hres).
   assert (Habs : forall p, In p done' -> bk_get (join cp p) b0 = None).
   { rewrite Forall_forall in Hall, Hf. intros p Hp. destruct (Hall p Hp) as [[] | (f & Hin & ->)].
     apply (clear_get_none (request_prefix cp dst)); [exact Hclear|]. apply under_prefix; auto. }
   destruct Hres as [(-> & Hn & Hm & _) | (-> & Hlt & Hh)].
   - left. exists done'. cbn [fst snd init_st st_n] in *. repeat split; auto.
-  - right. cbn [fst snd]. split; [reflexivity|]. apply rollback_restores; auto. eapply hit_past; exact Hh.
+  - right. cbn [fst snd]. split; [reflexivity|]. split.
+    + apply rollback_restores; auto. eapply hit_past; exact Hh.
+    + cbn [init_st st_n] in Hh. eapply hit_widen; [exact Hh|lia|]. apply rollback_n_mono.
 Qed.
-
-Lemma install_fault fa cp inv_dst sc_dst inv sc b0 uploaded s1 :
-  agrees cp b0 uploaded (st_b s1) ->
-  (forall p, In p uploaded -> bk_get (join cp p) b0 = None) ->
-  hit fa (st_n s1) (st_n s1 + put_cost (uf_len inv)) ->
-  let out := do_with_rollback fa cp (install_body fa cp inv_dst sc_dst inv sc) uploaded s1 in
-  fst out = Err /\ forall x, bk_get x (st_b (snd out)) = bk_get x b0.
-Proof.
-  intros Hag Habs Hh. cbn zeta. unfold do_with_rollback, install_body.
-  pose proof (put_object_file_step fa cp inv_dst (uf_len inv) (uf_tok inv) s1) as H1.
-  destruct (put_object_file fa cp inv_dst (uf_len inv) (uf_tok inv) s1) as [r1 s2]. unfold step_ok in H1; cbn [fst snd] in H1.
-  destruct H1 as [(A & B & C & D) | (A & B & C & D)]; subst r1.
-  - exfalso. eapply miss_hit_absurd; [exact D|exact Hh|lia|lia].
-  - cbn [fst snd]. split; [reflexivity|]. apply rollback_restores; auto.
-    + now rewrite B.
-    + eapply hit_past; exact D.
-Qed.
-
-(** C16, second half, outside the known class: a fault at any request up to and including the
-    PUT of the root inventory makes the commit fail and leaves the bucket as it was *)
-Lemma fault_cleanup_version cp i bk k :
-  nv_wf cp i -> clear_under cp (vdst_of i) bk -> c16_root_inventory_rollback i k = false ->
-  let out := write_new_version (Some k) cp i (init_st bk) in
-  fst out = Err /\
-  (forall x, bk_get x (st_b (snd out)) = bk_get x bk) /\
-  (forall x, starts_with (request_prefix cp (vdst_of i)) x = true -> bk_get x (st_b (snd out)) = None).
-Proof.
-  intros [Hc Hr Hv Hf] Hclear Hk. cbn zeta.
-  assert (Main : fst (write_new_version (Some k) cp i (init_st bk)) = Err /\
-                 forall x, bk_get x (st_b (snd (write_new_version (Some k) cp i (init_st bk)))) = bk_get x bk).
-  { unfold write_new_version. fold (vdst_of i). cbn [init_st st_b].
-    assert (listing_empty (list_all (bk_keys bk) cp (vdst_of i) true) = Ok true) as ->
-      by (apply listing_empty_iff; exact Hclear).
-    pose proof (upload_all_spec (Some k) cp (vdst_of i) (nv_files i) bk Hc (relb_join _ _ Hr Hv) Hf Hclear) as H.
-    cbn zeta in H. destruct (upload_all (Some k) cp (vdst_of i) (nv_files i) (init_st bk)) as [r1 s1].
-    cbn [fst snd] in H. destruct H as [(up & -> & Hag & Habs & Hn & Hm) | (-> & Hb)].
-    - unfold c16_root_inventory_rollback in Hk.
-      assert (Hh : hit (Some k) (st_n s1) (st_n s1 + put_cost (uf_len (nv_inv i)))).
-      { exists k. split; [reflexivity|]. destruct (Hm k eq_refl); lia. }
-      pose proof (install_fault (Some k) cp (join (nv_root i) K_INVENTORY_FILE) (join (nv_root i) (uf_rel (nv_sidecar i)))
-                    (nv_inv i) (nv_sidecar i) bk up s1 Hag Habs Hh) as H2.
-      cbn zeta in H2. destruct (do_with_rollback _ _ _ up s1) as [r2 s2]. cbn [fst snd] in H2.
-      destruct H2 as [-> Hb]. cbn [fst snd]. auto.
-    - cbn [fst snd]. auto. }
-  destruct Main as [M1 M2]. repeat split; auto.
-  intros x Hx. rewrite M2. now apply (clear_get_none (request_prefix cp (vdst_of i))).
-Qed.
-
-Lemma fault_cleanup_object cp root files bk k :
-  pfx_ok cp = true -> relb root = true -> Forall (fun f => relb (uf_rel f) = true) files ->
-  clear_under cp root bk -> k < upload_cost files ->
-  let out := write_new_object (Some k) cp root files (init_st bk) in
-  fst out = Err /\ (forall x, bk_get x (st_b (snd out)) = bk_get x bk).
-Proof.
-  intros Hc Hr Hf Hclear Hk. cbn zeta. unfold write_new_object. cbn [init_st st_b].
-  assert (listing_empty (list_all (bk_keys bk) cp root true) = Ok true) as ->
-    by (apply listing_empty_iff; exact Hclear).
-  pose proof (upload_all_spec (Some k) cp root files bk Hc Hr Hf Hclear) as H.
-  cbn zeta in H. destruct (upload_all (Some k) cp root files (init_st bk)) as [r1 s1].
-  cbn [fst snd] in H. destruct H as [(up & -> & Hag & Habs & Hn & Hm) | (-> & Hb)].
-  - exfalso. destruct (Hm k eq_refl); lia.
-  - cbn [fst snd]. auto.
-Qed.
-
-(** a refused commit (something already lies under the destination prefix) issues no request *)
-Lemma write_new_version_refused fa cp i s :
-  listing_empty (list_all (bk_keys (st_b s)) cp (vdst_of i) true) <> Ok true ->
-  fst (write_new_version fa cp i s) <> Ok tt /\ snd (write_new_version fa cp i s) = s.
-Proof.
-  intros H. unfold write_new_version. fold (vdst_of i).
-  destruct (listing_empty _) as [[|]| |]; [congruence| | |]; cbn [fst snd]; split; (discriminate || reflexivity).
-Qed.
-
-(* ------------------------------------------------------------------ fault-free runs: the exact request sequence *)
-
-Lemma st_eta s : s = mkSt (st_b s) (st_n s) (st_log s).
-Proof. now destruct s. Qed.
-
-Lemma mreq_none r eff s : mreq None r eff s = (Ok tt, mkSt (eff (st_b s)) (st_n s + 1) (st_log s ++ [r])).
-Proof. reflexivity. Qed.
-
-Lemma mp_parts_none key : forall todo i s,
-  mp_parts None key i todo s = (Ok tt, mkSt (st_b s) (st_n s + N.of_nat todo) (st_log s ++ part_reqs key i todo)).
-Proof.
-  induction todo as [|t IH]; intros i s.
-  - cbn [mp_parts part_reqs]. rewrite app_nil_r. replace (st_n s + N.of_nat 0) with (st_n s) by lia.
-    now rewrite <- st_eta.
-  - cbn [mp_parts part_reqs]. rewrite mreq_none, IH. cbn [st_b st_n st_log]. unfold same.
-    rewrite <- app_assoc. cbn [app]. do 2 f_equal. lia.
-Qed.
-
-Lemma put_object_file_none cp path len tok s :
-  put_object_file None cp path len tok s =
-  (Ok tt, mkSt (bk_put (join cp path) tok (st_b s)) (st_n s + put_cost len) (st_log s ++ put_reqs (join cp path) len)).
-Proof.
-  unfold put_object_file, put_cost, put_reqs. destruct (K_S3_PART_SIZE <? len).
-  - unfold multipart_put. rewrite mreq_none, mp_parts_none, mreq_none. cbn [st_b st_n st_log]. unfold same.
-    rewrite <- !app_assoc. cbn [app]. do 2 f_equal. lia.
-  - now rewrite mreq_none.
-Qed.
-
-Definition upload_reqs (cp dst : bytes) (files : list ufile) : list req :=
-  flat_map (fun f => put_reqs (join cp (join dst (uf_rel f))) (uf_len f)) files.
-Definition upload_bucket (cp dst : bytes) (files : list ufile) (bk : bucket) : bucket :=
-  fold_left (fun b0 f => bk_put (join cp (join dst (uf_rel f))) (uf_tok f) b0) files bk.
-
-Lemma upload_loop_none cp dst : forall files done s,
-  upload_loop None cp dst files done s =
-  ((Ok tt, done ++ map (fun f => join dst (uf_rel f)) files),
-   mkSt (upload_bucket cp dst files (st_b s)) (st_n s + upload_cost files) (st_log s ++ upload_reqs cp dst files)).
-Proof.
-  induction files as [|f fs IH]; intros done s.
-  - cbn [upload_loop map upload_bucket fold_left upload_cost fold_right upload_reqs flat_map].
-    rewrite !app_nil_r. replace (st_n s + 0) with (st_n s) by lia. now rewrite <- st_eta.
-  - cbn [upload_loop]. rewrite put_object_file_none, IH. cbn [st_b st_n st_log map].
-    cbn [upload_bucket fold_left upload_cost fold_right upload_reqs flat_map].
-    rewrite <- !app_assoc. cbn [app]. do 2 f_equal. fold (upload_cost fs). lia.
-Qed.
-
-Lemma delete_each_none cp : forall olds s,
-  delete_each None cp olds s =
-  (Ok tt, mkSt (fold_left (fun b0 o => bk_remove (join cp o) b0) olds (st_b s)) (st_n s + N.of_nat (List.length olds))
-               (st_log s ++ map (fun o => RDelete (join cp o)) olds)).
-Proof.
-  induction olds as [|o r IH]; intros s.
-  - cbn [delete_each fold_left map List.length]. rewrite app_nil_r.
-    replace (st_n s + N.of_nat 0) with (st_n s) by lia. now rewrite <- st_eta.
-  - cbn [delete_each]. unfold delete_object. rewrite mreq_none, IH. cbn [st_b st_n st_log fold_left map List.length].
-    rewrite <- app_assoc. cbn [app]. do 2 f_equal. lia.
-Qed.
-
-(** what the declaration swap may send: deletes, and the PUT of the new declaration *)
-Definition swap_req_ok (cp root : bytes) (up : option (bytes * bytes)) (r : req) : Prop :=
-  stores_key r = None \/ exists name content, up = Some (name, content) /\ r = RPut (join cp (join root name)).
-
-Lemma swap_declaration_none_log cp root up s :
-  exists tail, st_log (snd (swap_declaration None cp root up s)) = st_log s ++ tail /\
-               Forall (swap_req_ok cp root up) tail /\
-               (up = None -> fst (swap_declaration None cp root up s) = Ok tt /\ tail = []).
-Proof.
-  unfold swap_declaration. destruct up as [[name content]|].
-  - destruct (find_files _ _ _ _) as [olds| |].
-    + unfold put_object_bytes. rewrite mreq_none, delete_each_none. cbn [fst snd st_log].
-      exists (RPut (join cp (join root name)) :: map (fun o => RDelete (join cp o)) olds).
-      rewrite <- app_assoc. split; [reflexivity|]. split; [|discriminate].
-      constructor; [right; eauto|]. rewrite Forall_forall. intros r Hr.
-      apply in_map_iff in Hr as (o & <- & _). now left.
-    + exists []. rewrite app_nil_r. cbn. split; [reflexivity|]. split; [constructor|discriminate].
-    + exists []. rewrite app_nil_r. cbn. split; [reflexivity|]. split; [constructor|discriminate].
-  - exists []. rewrite app_nil_r. cbn. auto.
-Qed.
-
-Lemma part_reqs_keys key : forall todo i, Forall (fun r => req_key r = key) (part_reqs key i todo).
-Proof. induction todo as [|t IH]; intros i; cbn [part_reqs]; constructor; auto. Qed.
-
-Lemma put_reqs_keys key len : Forall (fun r => req_key r = key) (put_reqs key len).
-Proof.
-  unfold put_reqs. destruct (K_S3_PART_SIZE <? len).
-  - constructor; [reflexivity|]. apply Forall_app. split; [apply part_reqs_keys|repeat constructor].
-  - repeat constructor.
-Qed.
-
-Lemma upload_reqs_under cp dst files :
-  pfx_ok cp = true -> relb dst = true -> Forall (fun f => relb (uf_rel f) = true) files ->
-  Forall (fun r => starts_with (request_prefix cp dst) (req_key r) = true) (upload_reqs cp dst files).
-Proof.
-  intros Hc Hd Hf. unfold upload_reqs. rewrite Forall_forall in *. intros r Hr.
-  apply in_flat_map in Hr as (f & Hin & Hr).
-  pose proof (put_reqs_keys (join cp (join dst (uf_rel f))) (uf_len f)) as K. rewrite Forall_forall in K.
-  rewrite (K _ Hr). apply under_prefix; auto.
-Qed.
-
-(** every file of the version is stored exactly by its own requests, in walk order *)
-Lemma put_reqs_stores key len : exists l, put_reqs key len = l ++ [match l with [] => RPut key | _ => RMpComplete key end]
-                                          /\ Forall (fun r => stores_key r = None) l.
-Proof.
-  unfold put_reqs. destruct (K_S3_PART_SIZE <? len).
-  - exists (RMpCreate key :: part_reqs key 1 (N.to_nat (n_parts len))). split; [reflexivity|].
-    constructor; [reflexivity|]. generalize 1. induction (N.to_nat (n_parts len)) as [|t IH]; intros i; cbn [part_reqs]; constructor; auto.
-  - exists []. split; [reflexivity|constructor].
-Qed.
-
-(** C16, first half: in a fault-free commit of a new version the requests are: everything
-    below <root>/vN/ (in walk order), then the root inventory.json, then the root sidecar,
-    then (upgrade only) the declaration swap *)
-Lemma root_inventory_last_version cp i bk :
-  nv_wf cp i -> clear_under cp (vdst_of i) bk ->
-  let out := write_new_version None cp i (init_st bk) in
-  let up := upload_reqs cp (vdst_of i) (nv_files i) in
-  let inv_key := join cp (join (nv_root i) K_INVENTORY_FILE) in
-  let sc_key := join cp (join (nv_root i) (uf_rel (nv_sidecar i))) in
-  exists tail,
-    st_log (snd out) = up ++ put_reqs inv_key (uf_len (nv_inv i)) ++ put_reqs sc_key (uf_len (nv_sidecar i)) ++ tail /\
-    Forall (fun r => starts_with (request_prefix cp (vdst_of i)) (req_key r) = true) up /\
-    Forall (swap_req_ok cp (nv_root i) (nv_upgrade i)) tail /\
-    (nv_upgrade i = None -> fst out = Ok tt /\ tail = []).
-Proof.
-  intros [Hc Hr Hv Hf] Hclear. cbn zeta.
-  unfold write_new_version. fold (vdst_of i). cbn [init_st st_b].
-  assert (listing_empty (list_all (bk_keys bk) cp (vdst_of i) true) = Ok true) as ->
-    by (apply listing_empty_iff; exact Hclear).
-  unfold upload_all, do_with_rollback. rewrite upload_loop_none. cbn [app].
-  unfold install_body. rewrite !put_object_file_none. cbn [st_b st_n st_log app].
-  match goal with |- context [swap_declaration None cp (nv_root i) (nv_upgrade i) ?s] =>
-    destruct (swap_declaration_none_log cp (nv_root i) (nv_upgrade i) s) as (tail & E & F & G) end.
-  exists tail. split; [cbn [st_log] in E; rewrite E, <- !app_assoc; reflexivity|]. split; [|split; assumption].
-  apply upload_reqs_under; auto. now apply relb_join.
-Qed.
-
-(** the root inventory key does not lie below the version prefix *)
-Lemma inv_key_not_under cp root vstr name :
-  pfx_ok cp = true -> relb root = true -> relb vstr = true -> relb name = true ->
-  starts_with (vstr ++ [slash]) name = false ->
-  starts_with (request_prefix cp (join root vstr)) (join cp (join root name)) = false.
-Proof.
-  intros Hc Hr Hv Hn Hs. unfold request_prefix, join_ts.
-  rewrite (join_relb root vstr), (join_relb root name) by assumption.
-  rewrite !join_under by (auto using relb_app).
-  assert (L : last_is_slash (under cp (root ++ slash :: vstr)) = false /\ under cp (root ++ slash :: vstr) <> []).
-  { pose proof (relb_app _ _ Hr Hv) as R. apply relb_inv in R as (R1 & _ & R3).
-    destruct cp as [|c cp]; cbn [under]; [auto|]. split; [|discriminate].
-    destruct (root ++ slash :: vstr) as [|d t]; [congruence|].
-    change (c :: cp ++ slash :: d :: t) with ((c :: cp ++ [slash]) ++ d :: t). now rewrite last_is_slash_app. }
-  destruct L as [L1 L2]. apply is_nil_false in L2. rewrite L1, L2. cbn [negb andb].
-  destruct cp as [|c cp]; cbn [under].
-  - replace ((root ++ slash :: vstr) ++ [slash]) with (root ++ (slash :: vstr ++ [slash]))
-      by (now rewrite <- app_assoc).
-    rewrite starts_with_app_same. cbn [starts_with]. change (Ascii.eqb slash slash) with true. exact Hs.
-  - replace (((c :: cp) ++ slash :: root ++ slash :: vstr) ++ [slash])
-      with ((c :: cp) ++ (slash :: root ++ (slash :: vstr ++ [slash])))
-      by (rewrite <- !app_assoc; cbn [app]; now rewrite <- app_assoc).
-    rewrite (starts_with_app_same (c :: cp)). cbn [starts_with]. change (Ascii.eqb slash slash) with true.
-    cbn [andb]. rewrite starts_with_app_same. cbn [starts_with]. change (Ascii.eqb slash slash) with true. exact Hs.
-Qed.
-
-(** new objects: the requests are exactly the walk; whether the root inventory comes last is
-    decided by the directory order *)
-Lemma new_object_log cp root files bk :
-  clear_under cp root bk ->
-  let out := write_new_object None cp root files (init_st bk) in
-  fst out = Ok tt /\ st_log (snd out) = upload_reqs cp root files.
-Proof.
-  intros Hclear. cbn zeta. unfold write_new_object. cbn [init_st st_b].
-  assert (listing_empty (list_all (bk_keys bk) cp root true) = Ok true) as ->
-    by (apply listing_empty_iff; exact Hclear).
-  unfold upload_all, do_with_rollback. rewrite upload_loop_none. cbn. auto.
-Qed.
-
-Lemma split_files name : forall files before after,
-  split_at_rel name (map uf_rel files) = Some (before, after) ->
-  exists fb inv fa, files = fb ++ inv :: fa /\ uf_rel inv = name /\ map uf_rel fb = before /\ map uf_rel fa = after.
-Proof.
-  induction files as [|f fs IH]; intros before after H; [discriminate|].
-  cbn [map split_at_rel] in H. destruct (bytes_eqb (uf_rel f) name) eqn:E.
-  - injection H as <- <-. apply bytes_eqb_eq in E. exists [], f, fs. auto.
-  - destruct (split_at_rel name (map uf_rel fs)) as [[b1 a1]|] eqn:S; [|discriminate].
-    injection H as <- <-. destruct (IH _ _ eq_refl) as (fb & inv & fa & -> & E1 & E2 & E3).
-    exists (f :: fb), inv, fa. cbn [map app]. repeat split; auto. now rewrite E2.
-Qed.
-
-Lemma upload_reqs_app cp dst a c : upload_reqs cp dst (a ++ c) = upload_reqs cp dst a ++ upload_reqs cp dst c.
-Proof. unfold upload_reqs. apply flat_map_app. Qed.
-
-Lemma root_inventory_last_object cp root vstr sidecar files bk :
-  clear_under cp root bk ->
-  c16_new_object_walk_order vstr sidecar (map uf_rel files) = false ->
-  let out := write_new_object None cp root files (init_st bk) in
-  exists fb inv fa,
-    files = fb ++ inv :: fa /\ uf_rel inv = K_INVENTORY_FILE /\
-    st_log (snd out) = upload_reqs cp root fb ++ put_reqs (join cp (join root K_INVENTORY_FILE)) (uf_len inv)
-                        ++ upload_reqs cp root fa /\
-    Forall (fun f => starts_with (vstr ++ [slash]) (uf_rel f) = false) fa /\
-    Forall (fun f => uf_rel f <> sidecar) fb.
-Proof.
-  intros Hclear Hk. cbn zeta. destruct (new_object_log cp root files bk Hclear) as [_ L]. cbn zeta in L.
-  unfold c16_new_object_walk_order in Hk.
-  destruct (split_at_rel K_INVENTORY_FILE (map uf_rel files)) as [[before after]|] eqn:S; [|discriminate].
-  apply orb_false_iff in Hk as [K1 K2].
-  destruct (split_files _ _ _ _ S) as (fb & inv & fa & -> & E1 & E2 & E3).
-  exists fb, inv, fa. split; [reflexivity|]. split; [assumption|]. split.
-  - rewrite L, upload_reqs_app. f_equal. unfold upload_reqs at 1. cbn [flat_map]. now rewrite E1.
-  - split.
-    + rewrite Forall_forall. intros f Hf. destruct (starts_with (vstr ++ [slash]) (uf_rel f)) eqn:X; [|reflexivity].
-      assert (existsb (starts_with (vstr ++ [slash])) after = true); [|congruence].
-      apply existsb_exists. exists (uf_rel f). split; [|assumption]. rewrite <- E3. now apply in_map.
-    + rewrite Forall_forall. intros f Hf Eq.
-      assert (existsb (bytes_eqb sidecar) before = true); [|congruence].
-      apply existsb_exists. exists (uf_rel f). split; [rewrite <- E2; now apply in_map|]. subst. apply bytes_eqb_refl.
-Qed.
-
-(* ------------------------------------------------------------------ witnesses inside the known classes *)
-
-Definition wit_bucket : bucket :=
-  [(b "pre/o1/0=ocfl_object_1.0", b "decl");
-   (b "pre/o1/inventory.json", b "inv1"); (b "pre/o1/inventory.json.sha512", b "sc1");
-   (b "pre/o1/v1/inventory.json", b "inv1"); (b "pre/o1/v1/inventory.json.sha512", b "sc1");
-   (b "pre/o1/v1/content/a.txt", b "A")].
-Definition wit_input : nv_input :=
-  mkNv (b "o1") (b "v2")
-       [mkUf (b "inventory.json") 700 (b "inv2"); mkUf (b "content/b.txt") 3 (b "B");
-        mkUf (b "inventory.json.sha512") 140 (b "sc2")]
-       (mkUf (b "inventory.json") 700 (b "inv2")) (mkUf (b "inventory.json.sha512") 140 (b "sc2")) None.
-
-(** the pinned code loses the root inventory when the root sidecar PUT (request 4) fails *)
-Lemma fault_cleanup_refuted_witness :
-  let out := write_new_version (Some 4) (b "pre") wit_input (init_st wit_bucket) in
-  c16_root_inventory_rollback wit_input 4 = true /\
-  fst out = Err /\
-  bk_get (b "pre/o1/inventory.json") wit_bucket = Some (b "inv1") /\
-  bk_get (b "pre/o1/inventory.json") (st_b (snd out)) = None /\
-  bk_get (b "pre/o1/inventory.json.sha512") (st_b (snd out)) = Some (b "sc1") /\
-  st_log (snd out) =
-    [RPut (b "pre/o1/v2/inventory.json"); RPut (b "pre/o1/v2/content/b.txt"); RPut (b "pre/o1/v2/inventory.json.sha512");
-     RPut (b "pre/o1/inventory.json"); RPut (b "pre/o1/inventory.json.sha512");
-     RDelete (b "pre/o1/v2/inventory.json"); RDelete (b "pre/o1/v2/content/b.txt");
-     RDelete (b "pre/o1/v2/inventory.json.sha512"); RDelete (b "pre/o1/inventory.json")].
-Proof. vm_compute. repeat split; reflexivity. Qed.
-
-(** and the boundary of the class: request 3 (the root inventory PUT) is still cleaned up *)
-Lemma fault_cleanup_boundary_witness :
-  c16_root_inventory_rollback wit_input 3 = false /\
-  nv_wf (b "pre") wit_input /\ clear_under (b "pre") (vdst_of wit_input) wit_bucket.
-Proof.
-  split; [reflexivity|]. split.
-  - constructor; try reflexivity. repeat constructor.
-  - intros k Hk. cbn in Hk. repeat (destruct Hk as [<- | Hk]; [reflexivity|]). destruct Hk.
-Qed.
-
-(** an upgrade whose declaration PUT fails: the new version stays installed under the old declaration *)
-Definition wit_upgrade : nv_input :=
-  mkNv (b "o1") (b "v2")
-       [mkUf (b "inventory.json") 700 (b "inv2"); mkUf (b "inventory.json.sha512") 140 (b "sc2")]
-       (mkUf (b "inventory.json") 700 (b "inv2")) (mkUf (b "inventory.json.sha512") 140 (b "sc2"))
-       (Some (b "0=ocfl_object_1.1", b "decl11")).
-Lemma upgrade_fault_witness :
-  let out := write_new_version (Some 4) (b "pre") wit_upgrade (init_st wit_bucket) in
-  c16_root_inventory_rollback wit_upgrade 4 = true /\ fst out = Err /\
-  bk_get (b "pre/o1/inventory.json") (st_b (snd out)) = Some (b "inv2") /\
-  bk_get (b "pre/o1/0=ocfl_object_1.0") (st_b (snd out)) = Some (b "decl") /\
-  bk_get (b "pre/o1/0=ocfl_object_1.1") (st_b (snd out)) = None.
-Proof. vm_compute. repeat split; reflexivity. Qed.
-
-(** the walk order observed for a new object with zero-padded version numbers (`new -z 2`):
-    the root inventory is stored first *)
-Definition wit_walk : list ufile :=
-  [mkUf (b "inventory.json") 600 (b "inv1"); mkUf (b "v01/inventory.json") 600 (b "inv1");
-   mkUf (b "v01/content/a.txt") 5 (b "A"); mkUf (b "v01/inventory.json.sha256") 80 (b "sc1");
-   mkUf (b "inventory.json.sha256") 80 (b "sc1"); mkUf (b "0=ocfl_object_1.0") 16 (b "decl")].
-Lemma new_object_walk_witness :
-  c16_new_object_walk_order (b "v01") (b "inventory.json.sha256") (map uf_rel wit_walk) = true /\
-  st_log (snd (write_new_object None [] (b "o1") wit_walk (init_st []))) =
-    [RPut (b "o1/inventory.json"); RPut (b "o1/v01/inventory.json"); RPut (b "o1/v01/content/a.txt");
-     RPut (b "o1/v01/inventory.json.sha256"); RPut (b "o1/inventory.json.sha256"); RPut (b "o1/0=ocfl_object_1.0")].
-Proof. vm_compute. split; reflexivity. Qed.
